@@ -7,6 +7,7 @@ import (
 	"strings"
 
 	vmcommon "github.com/ElrondNetwork/elrond-vm-common"
+	"github.com/ElrondNetwork/elrond-vm-common/builtInFunctions"
 	"verif/internal/gen"
 	"verif/internal/harness"
 	"verif/internal/node"
@@ -92,11 +93,18 @@ func transferMatrix(c *harness.Ctx, enabled []string, each func(s *Scn, l *node.
 							gen.Must(s.U.N.Exec(gen.MultiCall(s.A, from, []gen.Item{{ID: s.F1, Nonce: 0, Qty: big.NewInt(500)}, {ID: s.F2, Nonce: 0, Qty: gen.Pow2(69)},
 								{ID: s.SFT, Nonce: 1, Qty: big.NewInt(5)}, {ID: s.SFT, Nonce: 2, Qty: big.NewInt(2)}, {ID: s.NFT, Nonce: 1, Qty: big.NewInt(1)}}, gen.BigGas, []byte("fund"))), "fund the contract sender")
 						}
+						// a third of the cases encode every number with leading zero bytes
+						padded := i%3 == 0
+						if padded {
+							k := 0
+							gen.NumPad = func() int { k++; return 1 + k%3 }
+						}
 						call := s.Xfer(f.Fn, from, dst, f.Pattern, att...)
+						gen.NumPad = nil
 						call.CallType = ct
 						call.GasLocked = uint64(vi) * 10
 						l := s.U.N.Exec(call)
-						tag := fmt.Sprintf("S%d %s dst%d att%d prior=%v ct=%d from-contract=%v", S, f, di, ai, prior, ct, from[0] == 0)
+						tag := fmt.Sprintf("S%d %s dst%d att%d prior=%v ct=%d from-contract=%v padded-numbers=%v", S, f, di, ai, prior, ct, from[0] == 0, padded)
 						if each != nil {
 							each(s, l, tag)
 						}
@@ -321,7 +329,7 @@ func init() {
 	// ------------------------------------------------------------------------------------ C01
 	harness.Register(&harness.Property{
 		ID: "C01", Level: "exploration",
-		Rule:        "cases = directed transfer matrix {3 functions; 1-5 tokens fungible/SFT/NFT/mixed/repeated} x {1,2,3 shards} x {user/contract destination, same/other shard} x {plain, attached call, call+args} x {destination holds / does not hold the tokens} + refund matrix (frozen / paused / non-payable destination) + identifier-aliasing cases + seeded random walks with adversarial calls and random delivery order; a case is non-trivial when a transfer leg commits; distinct = distinct (function, side, shard relation, token kinds, #tokens, destination-prior, attached) signatures and distinct final world digests",
+		Rule:        "cases = directed transfer matrix {3 functions; 1-5 tokens fungible/SFT/NFT/mixed/repeated} x {1,2,3 shards} x {user/contract destination, same/other shard} x {plain, attached call, call+args} x {destination holds / does not hold the tokens} + refund matrix (frozen / paused / non-payable destination) + identifier-aliasing cases + seeded random walks with adversarial calls and random delivery order; a case is non-trivial when a transfer leg commits; distinct = distinct (function, side, shard relation, token kinds, #tokens, destination-prior, attached) signatures and distinct final world digests Walk options: every fifth walk with leading-zero numbers, every fifth with injected dependency faults (aborted attempts are rolled back and processed again; a call that succeeds although the fault fired is judged like any committed leg); a third of the worlds with a merge-decoding marshaller, a third with a reference-keeping data trie.",
 		Assumptions: commonAssumptions,
 		Batches:     tierN(8, 32),
 		Floors:      map[string]int64{"C01/transfer-leg:*": 300, "C01/conservation-key-checks": 1000, "C01/refund-forced:*": 10},
@@ -356,7 +364,7 @@ func init() {
 	// ------------------------------------------------------------------------------------ C03
 	harness.Register(&harness.Property{
 		ID: "C03", Level: "exploration",
-		Rule:        "cases = for each role-gated function every one of the 2^7 subsets of roles held for the target token x {required role held only for a different token} x {quantity 1, 2}; system-only functions called by user / contract / DNS / owner (sender side, same and cross shard); owner / ex-owner / stranger for ChangeOwnerAddress and ClaimDeveloperRewards; DNS / non-DNS for SetUserName; + seeded random walks with role set/unset/hand-over histories; non-trivial = gated call attempted; distinct = (function, role subset, authorised?, outcome)",
+		Rule:        "cases = for each role-gated function every one of the 2^7 subsets of roles held for the target token x {required role held only for a different token} x {quantity 1, 2}; system-only functions called by user / contract / DNS / owner (sender side, same and cross shard); owner / ex-owner / stranger for ChangeOwnerAddress and ClaimDeveloperRewards; DNS / non-DNS for SetUserName; + seeded random walks with role set/unset/hand-over histories; non-trivial = gated call attempted; distinct = (function, role subset, authorised?, outcome) + every system-only function attempted by look-alikes of the system contract address (all addresses at distance one byte, other shard-identifier tails, truncated / extended, the system account, another metachain contract).",
 		Assumptions: commonAssumptions,
 		Batches:     tierN(8, 32),
 		Floors:      map[string]int64{"C03/authorised-success:*": 200, "C03/unauthorised-rejected:*": 500},
@@ -415,13 +423,14 @@ func init() {
 			c08Routes(c)
 			hugeNonceOps(c, []string{"C08"})
 			transferMatrix(c, []string{"C08"}, nil)
+			forgedDeliveries(c, []string{"C08"})
 			runWalks(c, c.Scale(400, 1500), c.Scale(70, 120), 8, true, "C08")
 		},
 	})
 	// ------------------------------------------------------------------------------------ C09
 	harness.Register(&harness.Property{
 		ID: "C09", Level: "exploration",
-		Rule:        "cases = full product {payability oracle answer for the destination: payable, non-payable, error} x {4 call types} x {caller: user, contract, system contract} x {argument count: min, min+1, min+2} x {ESDTTransfer, ESDTNFTTransfer, multi fungible-only / NFT-only / mixed, 1-3 tokens} x {same-shard sender leg, destination leg} x {user / contract destination}; metachain / self / wrong-length destinations; + random walks; non-trivial = a credit is attempted; distinct = (function, side, kinds, oracle, exemption, call type, extra args)",
+		Rule:        "cases = full product {payability oracle answer for the destination: payable, non-payable, error} x {4 call types} x {caller: user, contract, system contract} x {argument count: min, min+1, min+2} x {ESDTTransfer, ESDTNFTTransfer, multi fungible-only / NFT-only / mixed, 1-3 tokens} x {same-shard sender leg, destination leg} x {user / contract destination}; metachain / self / wrong-length destinations; + random walks; non-trivial = a credit is attempted; distinct = (function, side, kinds, oracle, exemption, call type, extra args) + the oracle answer changing between two transfers to one destination (also via a new SetPayableHandler object; directed and in walks); every in-flight message also delivered flagged return-after-error and as crafted variants with zero-quantity NFT entries.",
 		Assumptions: commonAssumptions,
 		Batches:     tierN(8, 32),
 		Exhaustive:  false,
@@ -431,7 +440,8 @@ func init() {
 			if c.Batch == 0 {
 				c09MetaNode(c)
 			}
-			runWalks(c, c.Scale(400, 1500), c.Scale(70, 120), 10, true, "C09")
+			runWalks(c, c.Scale(300, 1100), c.Scale(70, 120), 10, true, "C09")
+			runWalksOpt(c, c.Scale(100, 400), WalkOpts{Steps: c.Scale(70, 120), Hostile: 10, NoSysDest: true, FlipPayable: true}, "C09")
 		},
 	})
 	// ------------------------------------------------------------------------------------ C10
@@ -704,6 +714,60 @@ func c03Directed(c *harness.Ctx) {
 				}
 			}
 		}
+		// look-alikes of the ESDT system contract address: every address at Hamming distance one
+		// byte (the other metachain contracts and "the same contract on another shard" among them),
+		// a truncated and an extended one, and the system ACCOUNT address
+		{
+			var fakes [][]byte
+			for p := 0; p < len(gen.SysSC); p++ {
+				for _, d := range []byte{0x01, 0x80, 0xff} {
+					a := append([]byte{}, gen.SysSC...)
+					a[p] ^= d
+					fakes = append(fakes, a)
+				}
+			}
+			for _, tail := range [][]byte{{0, 0}, {0, 1}, {0xff, 0xfe}, {0, 0xff}} {
+				a := append([]byte{}, gen.SysSC...)
+				copy(a[30:], tail)
+				fakes = append(fakes, a)
+			}
+			fakes = append(fakes, gen.SysSC[:31], append(append([]byte{}, gen.SysSC...), 0xff), gen.SysAcc, otherMetaSC)
+			for _, caller := range fakes {
+				for _, tgt := range [][]byte{s.Same, gen.SysAcc} {
+					calls := []node.Call{
+						{Func: FSetRole, Args: [][]byte{s.F1, []byte(RoleMint)}},
+						{Func: FUnSetRole, Args: [][]byte{s.F1, []byte(RoleMint)}},
+						{Func: FFreeze, Args: [][]byte{s.F2}},
+						{Func: FUnFreeze, Args: [][]byte{s.F1}},
+						{Func: FWipe, Args: [][]byte{s.F1}},
+						{Func: FPause, Args: [][]byte{s.F1}},
+						{Func: FUnPause, Args: [][]byte{s.F1}},
+						{Func: FTransfer, Args: [][]byte{s.F1, gen.Big(7)}}, // "issuance" by an impostor
+					}
+					// (the hand-over is left out: its arrival leg is by design accepted from any
+					// origin that has no sender account, the protocol being the only producer)
+					for _, call := range calls {
+						if call.Func == FTransfer && bytes.Equal(tgt, gen.SysAcc) {
+							continue // T7: the system account is no transfer destination
+						}
+						call.Caller, call.Recipient, call.Gas = caller, tgt, gen.BigGas
+						// a look-alike that maps to the metachain runs where the target lives with no
+						// sender account, exactly as the real system contract; one that maps to a
+						// shard is an ordinary sender there
+						var l *node.Leg
+						if world.ComputeShard(u.W.NumShards, caller) >= u.W.NumShards && bytes.Equal(tgt, gen.SysAcc) {
+							l = u.N.ExecAt(0, call)
+						} else {
+							l = u.N.Exec(call)
+						}
+						if l != nil && !l.OK {
+							c.R.Cover("C03/unauthorised-rejected:" + call.Func + ":look-alike")
+						}
+						drain(u.N)
+					}
+				}
+			}
+		}
 		// owner-gated
 		for _, k := range [][]byte{s.KSame, s.KOther} {
 			for _, fn := range []string{FChgOwner, FClaim} {
@@ -909,6 +973,35 @@ func c05Keys(s *Scn) [][]byte {
 
 func c05Directed(c *harness.Ctx) {
 	i := 0
+	// flag operations on SEVERAL tokens and accounts in a row, in three consecutive worlds (one per
+	// environment variant: copying trie, reference-keeping trie, merge-decoding marshaller): every
+	// call writes only the entry it names
+	if mine(c, 2) {
+		for rep := 0; rep < 6; rep++ {
+			s := NewScn(c.Rand("c05flags").Fork(uint64(rep)), c.R, ScnOpts{Shards: 1 + uint32(rep%2), Enabled: []string{"C05", "C04"}})
+			u := s.U
+			toks := [][]byte{s.F1, s.F2, s.SFT, s.NFT}
+			for _, t := range toks {
+				u.UnPause(0, t) // never paused: writes the "no flag" value
+			}
+			for _, a := range [][]byte{s.A, s.Same, s.KSame} {
+				for _, t := range toks[:2] {
+					u.UnFreeze(a, t)
+				}
+			}
+			u.Pause(0, toks[1])
+			u.Freeze(s.Same, s.F1)
+			u.Pause(0, toks[3])
+			u.UnPause(0, toks[1])
+			u.Freeze(s.A, s.F2)
+			u.UnFreeze(s.Same, s.F1)
+			u.N.Exec(gen.TransferCall(s.A, s.Same, s.F1, big.NewInt(1), gen.BigGas))
+			u.N.Exec(gen.NFTTransferCall(s.A, s.Same, s.SFT, 1, big.NewInt(1), gen.BigGas))
+			drain(u.N)
+			c.R.Cover("C05/flag-sequences")
+			c.R.Eval(u.N.Seq())
+		}
+	}
 	for _, S := range []uint32{1, 2} {
 		s0 := NewScn(c.Rand("c05k"), c.R, ScnOpts{Shards: S})
 		keys := c05Keys(s0)
@@ -1290,6 +1383,16 @@ func c09Product(c *harness.Ctx) {
 									m2 := *m
 									m2.From = otherMetaSC
 									u.N.DeliverMsg(&m2)
+									// ... and flagged as a refund (return-after-error): still not an
+									// exemption from the payability query
+									m3 := *m
+									m3.RetAfterErr = true
+									u.N.DeliverMsg(&m3)
+									// ... and with zero-quantity NFT entries in front of / instead of the
+									// real ones (only a crafted message can carry them)
+									for _, mz := range zeroQtyVariants(m) {
+										u.N.DeliverMsg(mz)
+									}
 								}
 								verify := ct != vmcommon.AsynchronousCallBack && ct != vmcommon.ESDTTransferAndExecute && len(ex) == 0
 								if verify && ans != world.PayYes && u.ShardOf(dst) == 0 {
@@ -1307,6 +1410,41 @@ func c09Product(c *harness.Ctx) {
 							}
 						}
 					}
+				}
+			}
+		}
+		// the oracle's answer changes between two transfers to the same destination (a contract
+		// upgraded to non-payable, SetPayableHandler with another oracle): the answer at the time of
+		// EACH credit counts
+		for _, f := range forms {
+			for di := 0; di < 4; di++ {
+				for _, second := range []int{world.PayNo, world.PayErr} {
+					i++
+					if !mine(c, i) {
+						continue
+					}
+					s := NewScn(c.Rand("c09flip").Fork(uint64(i)), c.R, ScnOpts{Shards: S, Enabled: []string{"C09"}})
+					u := s.U
+					dst := [][]byte{s.Same, s.Other, s.NSame, s.NOther}[di]
+					for round, ans := range []int{world.PayYes, second, world.PayYes, second} {
+						u.W.Payable[string(dst)] = ans
+						if round == 3 {
+							// the second oracle is installed as a new handler object
+							for _, sh := range u.W.Shards {
+								_ = builtInFunctions.SetPayableHandler(sh.Container, &world.PayableOracle{W: u.W})
+							}
+						}
+						l := u.N.Exec(s.Xfer(f.Fn, s.A, dst, f.Pattern))
+						if ans != world.PayYes && u.ShardOf(dst) == 0 {
+							s.M.C09rejected(l, "oracle-flip")
+						}
+						for _, dl := range drain(u.N) {
+							if dl.Msg != nil && !dl.Msg.IsRefund && ans != world.PayYes {
+								s.M.C09rejected(dl, "oracle-flip")
+							}
+						}
+					}
+					c.R.Eval(u.N.Seq())
 				}
 			}
 		}
@@ -1367,6 +1505,63 @@ func c09Product(c *harness.Ctx) {
 			c.R.Eval(u.N.Seq())
 		}
 	}
+}
+
+// zeroQtyVariants: crafted variants of an NFT / multi continuation message in which NFT entries
+// carry quantity zero (prepended to the real entries, or replacing the first one).
+func zeroQtyVariants(m *node.Message) []*node.Message {
+	zero := func(payload []byte) []byte {
+		t, err := refcodec.DecodeToken(payload)
+		if err != nil || t.Meta == nil {
+			return nil
+		}
+		t.Value, t.HasValue = big.NewInt(0), true
+		return refcodec.EncodeToken(t)
+	}
+	var out []*node.Message
+	switch m.Func {
+	case FMulti:
+		if len(m.Args) < 4 {
+			return nil
+		}
+		k := int(u64(m.Args[0]))
+		if len(m.Args) < 1+3*k {
+			return nil
+		}
+		for e := 0; e < k; e++ {
+			if u64(m.Args[2+3*e]) == 0 {
+				continue
+			}
+			z := zero(m.Args[3+3*e])
+			if z == nil {
+				continue
+			}
+			// (a) the zero-quantity entry in front of all real entries
+			a := *m
+			a.Args = append([][]byte{big.NewInt(int64(k + 1)).Bytes(), m.Args[1+3*e], m.Args[2+3*e], z}, m.Args[1:]...)
+			out = append(out, &a)
+			// (b) replacing entry e
+			b := *m
+			b.Args = append([][]byte{}, m.Args...)
+			b.Args[3+3*e] = z
+			out = append(out, &b)
+			break
+		}
+		// (c) a fungible zero entry in front
+		cc := *m
+		cc.Args = append([][]byte{big.NewInt(int64(k + 1)).Bytes(), m.Args[1], {}, {}}, m.Args[1:]...)
+		out = append(out, &cc)
+	case FNFTXfer:
+		if len(m.Args) >= 4 {
+			if z := zero(m.Args[3]); z != nil {
+				b := *m
+				b.Args = append([][]byte{}, m.Args...)
+				b.Args[3] = z
+				out = append(out, &b)
+			}
+		}
+	}
+	return out
 }
 
 // otherMetaSC: a metachain system contract that is not the ESDT system contract.
